@@ -325,7 +325,7 @@ func main() {
 			k, d = roundTrip(f.Replay.Cfg, w.Ix, true)
 		}
 		if k != "" {
-			fmt.Printf("VIOLATION property=C08 replay=%s\n  %s: %s\n", os.Args[2], k, d)
+			fmt.Printf("VIOLATION property=%s replay=%s\n  %s: %s\n", ev.As("C08"), os.Args[2], k, d)
 			os.Exit(1)
 		}
 		fmt.Println("replay: property held")
